@@ -141,6 +141,23 @@ func (comp) Run(h *core.History, scratch string) *core.Result {
 				res.Hit("non-power-of-two")
 			}
 		case 2:
+			// the list of shard ids belongs to the caller: scribbling over one result must not change the next one
+			if n <= 1<<16 { // (the list has n entries: not for the counts near 2^31)
+				ids := sp.GetShardIDs()
+				for k := range ids {
+					ids[k] = 0xdeadbeef
+				}
+				ids2 := sp.GetShardIDs()
+				if uint64(len(ids2)) != n {
+					res.Failf("C19", i, "GetShardIDs lists %d ids for %d shards", len(ids2), n)
+				}
+				for k := range ids2 {
+					if ids2[k] != uint32(k) {
+						res.Failf("C19", i, "GetShardIDs()[%d] = %d after the caller overwrote an earlier result (n=%d): the ids are not [0,n)", k, ids2[k], n)
+						break
+					}
+				}
+			}
 			mh, ml, bn := sp.VerifFields()
 			res.AddObs(core.Lbl(2, core.N(uint64(mh))), core.Lbl(3, core.N(uint64(ml))), core.Lbl(4, core.N(uint64(bn))))
 			res.Hit("fields")
